@@ -154,7 +154,10 @@ Cfg(i, q) ==
    fluxes |-> viaf \/ d[8] % 3 # 0,
    via |-> IF viaf THEN "function" ELSE "class",
    \* further sample(n2) calls on the same sampler object (class entry point only)
-   rounds |-> IF viaf THEN 1 ELSE 1 + (d[9] % 3), n2 |-> Pick(Ns, d[10])]
+   rounds |-> IF viaf THEN 1 ELSE 1 + (d[9] % 3), n2 |-> Pick(Ns, d[10]),
+   \* sampler objects are independent of each other: ANOTHER sampler object (on another model) is created (1) -- and
+   \* used (2) -- between the creation of this sampler and its sample() calls; the abstract sampler does not notice
+   other |-> IF viaf THEN 0 ELSE (d[10] \div 8) % 3]
 \* the two pinned F66 witnesses (instances 18, 19) start with a fixed, long enough run
 WitnessCfg == [method |-> "achr", n |-> 20, thin |-> 10, seed |-> 7, nproj |-> 0, P |-> 1, fluxes |-> TRUE, via |-> "class",
                rounds |-> 1, n2 |-> 1]
@@ -169,7 +172,9 @@ PinnedCfgs == {
   [method |-> "optgp", n |-> 5, thin |-> 1, seed |-> 11, nproj |-> 0, P |-> 2, fluxes |-> TRUE, via |-> "class", rounds |-> 3, n2 |-> 7],
   [method |-> "optgp", n |-> 7, thin |-> 2, seed |-> 13, nproj |-> 0, P |-> 3, fluxes |-> FALSE, via |-> "class", rounds |-> 3, n2 |-> 5]}
 \* the configurations every emitted case ends with
-PinnedTail == <<[method |-> "optgp", n |-> 5, thin |-> 1, seed |-> 11, nproj |-> 0, P |-> 2, fluxes |-> TRUE, via |-> "class", rounds |-> 3, n2 |-> 7]>>
+PinnedTail == <<[method |-> "optgp", n |-> 5, thin |-> 1, seed |-> 11, nproj |-> 0, P |-> 2, fluxes |-> TRUE, via |-> "class", rounds |-> 3, n2 |-> 7, other |-> 0],
+                [method |-> "optgp", n |-> 7, thin |-> 1, seed |-> 5, nproj |-> 0, P |-> 1, fluxes |-> TRUE, via |-> "class", rounds |-> 2, n2 |-> 5, other |-> 2],
+                [method |-> "achr", n |-> 5, thin |-> 2, seed |-> 3, nproj |-> 0, P |-> 1, fluxes |-> TRUE, via |-> "class", rounds |-> 2, n2 |-> 5, other |-> 1]>>
 
 \* ------------------------------------------------------------- the abstract sampler
 Lat == lat
